@@ -438,6 +438,24 @@ def _escape_programs():
 
 DIRECTED += _escape_programs()
 
+
+def _temporal_programs():
+    """date / time / timestamp literals in every documented written form (hour only, with minutes, seconds, fractions, `Z` and numeric
+    offsets) and just outside it: the back end re-slices the text of such literals per dialect (DIRECTED programs run for all 12 dialects)"""
+    times = ["@16", "@16Z", "@16:30", "@16:30Z", "@08:30:00", "@08:30:00.5", "@08:30:00.123456", "@08:30:00Z", "@08:30:00+01", "@08:30:00+0100",
+             "@08:30:00+01:00", "@08:30:00-0530", "@8", "@08:3", "@24", "@00:00:00.000000001"]
+    dates = ["@2022-12-31", "@2022-1-1", "@0001-01-01", "@9999-12-31", "@2022-02-30", "@2022-12-31T16", "@2022-12-31T16:54", "@2022-12-31T16:54:32",
+             "@2022-12-31T16:54:32.123456", "@2022-12-31T16:54:32Z", "@2022-12-31T16:54:32+0100", "@2022-12-31T16:54:32.5+01:00", "@2022-12-31T16Z"]
+    out = []
+    for lit in times + dates:
+        out.append(f"from t | derive x = {lit}")
+        out.append(f"from t | filter d > {lit} | select {{d}}")
+    out += ["from t | derive x = (@2022-12-31 | date.to_text '%Y')", "from t | derive x = @16 + 1days", "from t | derive {x = @16, y = @16:30Z, z = @2022-12-31T16}"]
+    return out
+
+
+DIRECTED += _temporal_programs()
+
 PUNCT = ["(", ")", "{", "}", "[", "]", "|", ",", "=", "==", "->", "=>", "..", "-", "+", "*", "!", "??", ".", ":", "@", "\"", "'", "`", "\\", "\n", "s\"", "f\"", "$1", "#", "0x", "1e", "_"]
 MULTI = ["é", "€", "😀", "\u2028", "ß", "中", "\u0301", "\ufeff", "\x00", "\x7f", "\u200b"]
 
